@@ -515,7 +515,7 @@ pub fn run(tier: Tier, seed: u64, replay: Option<String>) -> i32 {
     let e = move |m: &ModuleSet| eval(m, salt);
     let run = GenericRun {
         gcfg: gen_cfg(),
-        n: tier.pick(3000, 60000),
+        n: tier.pick(12000, 150000),
         stream_len: 3000,
         salt: 10,
         shrink_budget: 300,
